@@ -16,10 +16,15 @@ as MAC) = 73 octets; the answer needs 48 + 28 = 76.
                           (time, DENY, NTS-NAK) fits the request-sized buffer
   `answer_or_internal`    whenever an answer was decided, either it is sent or exactly one "internal error /
                           ignore" entry is recorded — the drop is at least never unaccounted
-NTS and NTPv5 answers are covered by the differential stream and the oracle `c17_request_sized_buffer`
-(whose failures carry the cause: short identifier / short nonce), not by a theorem.
+  `fits_unless_known_cause`  the property for EVERY request (NTPv3/4/5, plain and NTS) outside the four known
+                          causes: re-encoding lengthens no echoed field (¬F-C17a), the request nonce is at least
+                          as long as the answer's (¬F-C17b/c), an NTPv5 request carries the draft
+                          identification (¬F-C17d; automatic when it parsed without authentication failure)
+The oracle `c17_request_sized_buffer` evaluates the property on the real server and labels each failure with its
+cause (short-uid / short-nonce / short-uid+nonce / v5-no-draft; anything else is reported as a violation); the
+oracle clause `c17_accounting` checks the accounting hypotheses of the theorem on every parsed request.
 -/
-import NtpVerif.Proofs.ServerSize
+import NtpVerif.Proofs.ServerFit
 
 namespace NtpVerif.C17
 open NtpVerif.Server NtpVerif.RespSize
@@ -184,6 +189,141 @@ theorem plain_fits_partial (cfg : Config) (info : Info) (env : Env) (req : Req) 
           · simp
           · simp [hv, h5]
 
+/-- Hypotheses of `fits_unless_known_cause`, for a request and the answer decided for it. -/
+structure Outside (req : Req) (r : Response) : Prop where
+  /-- the request holds the fields it was parsed into (harness-checked: `c17_accounting`) -/
+  accounted : 48 + wireSum (req.untrusted ++ req.auth) + req.encw ≤ req.len
+  /-- ¬F-C17a: re-encoding does not lengthen an echoed field (each term of the encoder's sizes is at least the
+      field's own length, so `≤` means: every echoed field already has its re-encoded length) -/
+  stable : untrustedSize (evOf r.hdr.version) r.untrusted ≤ ownSum r.untrusted ∧ authSize r.auth ≤ ownSum r.auth
+  /-- ¬F-C17b/c: the request's encrypted field is at least as long as one with a 16-octet nonce around the
+      same fields (holds when the request nonce has 16 octets or more; harness-checked for those) -/
+  nonceLong : req.cookie.isSome = true → encOverhead + wireSum req.enc ≤ req.encw
+  /-- ¬F-C17d: an NTPv5 request carries the draft identification (guaranteed by the parser unless
+      authentication failed; harness-checked) -/
+  draft : req.version = 5 → ∃ n, 23 ≤ n ∧ Field.draft n ∈ req.untrusted ++ req.auth
+  /-- parser facts: field lengths are 16-bit, a datagram is at most 65535 octets, accepted NTPv5 packets are a
+      whole number of words -/
+  bounded : ∀ b, Field.uid b ∈ req.untrusted ++ req.auth → b.length ≤ 65531
+  udp : req.len ≤ 65535
+  v5len : req.version = 5 → req.len % 4 = 0
+
+/-- **The property outside the known causes.**  For every configuration, synchronisation state, address and
+    request (any version, plain or NTS, any field layout): if the policy decides to answer and the request is
+    `Outside` the four known causes, the answer can be serialised into a buffer as long as the request. -/
+theorem fits_unless_known_cause (cfg : Config) (info : Info) (env : Env) (req : Req) {a reason v nts r}
+    (h : handleInner cfg info env req = .answer a reason v nts r) (ho : Outside req r) :
+    serialize r req.len ≠ .err := by
+  obtain ⟨_, _, a0, r0, c0, hr, hsrc⟩ := handleInner_answer h
+  have hb := respond_built hr
+  have hc0 : c0 = none ∨ c0 = req.cookie := by
+    rcases hsrc with ⟨_, _, h3⟩ | ⟨_, h3, _⟩
+    · exact .inr h3
+    · exact .inl h3
+  have hm := efSize_mod r
+  by_cases h3 : req.version = 3
+  · -- NTPv3: no extension fields at all
+    obtain ⟨hv, hu, ha, hen⟩ := built_v3 hb h3
+    have he : efSize r = 0 := by simp [efSize, hv]
+    have henc : encodable r = true := by simp [encodable, hu, ha, hen]
+    have hacc := ho.accounted
+    unfold serialize
+    split
+    · simp
+    · split
+      · simp
+      · split
+        · omega
+        · simp only [henc, Bool.not_true, Bool.false_eq_true, ↓reduceIte, he]
+          unfold padded
+          split
+          · omega
+          · split
+            · simp
+            · simp [hv]
+  · obtain ⟨hv, hecho, hck, hnone, hcipher, hdes, hfields⟩ := built_budget hb h3
+    have hsum := sums_le (req.untrusted ++ req.auth)
+    have hsumE := sums_le req.enc
+    have hcapp := cookieSum_append req.auth req.enc
+    have hcapp2 := cookieSum_append req.untrusted req.auth
+    have hacc := ho.accounted
+    obtain ⟨hstU, hstA⟩ := ho.stable
+    have hdraft : (if req.version = 5 then 28 else 0) ≤ draftSum (req.untrusted ++ req.auth) := by
+      split
+      · rename_i h5; exact draftSum_ge _ (ho.draft h5)
+      · omega
+    -- size of the extension-field area
+    have hsize : 48 + efSize r ≤ req.len := by
+      unfold efSize
+      rw [if_neg (by rw [hv]; exact h3)]
+      have hencI : encInnerSize r.enc = ownSum r.enc := rfl
+      split
+      · -- no authenticated / encrypted part
+        rename_i hemp
+        have hao : ownSum r.auth = 0 := by
+          have : r.auth = [] := by
+            have := hemp; simp only [Bool.and_eq_true, List.isEmpty_iff] at this; exact this.1
+          rw [this]; rfl
+        omega
+      · rename_i hne
+        have hsome : c0 = req.cookie ∧ req.cookie.isSome = true := by
+          rcases hc0 with hc | hc
+          · exfalso
+            obtain ⟨ha, he⟩ := hnone hc
+            rw [ha, he] at hne; simp at hne
+          · refine ⟨hc, ?_⟩
+            cases hcc : req.cookie with
+            | some x => rfl
+            | none =>
+              exfalso
+              obtain ⟨ha, he⟩ := hnone (hc.trans hcc)
+              rw [ha, he] at hne; simp at hne
+        have hn := ho.nonceLong hsome.2
+        rw [hencI]
+        omega
+    have henc : encodable r = true := by
+      have hfr : (r.untrusted ++ r.auth ++ r.enc).all RField.frameOk = true := by
+        rw [List.all_eq_true]
+        intro f hf
+        rcases hfields f hf with ⟨b, hfb, hmem⟩ | hok
+        · subst hfb
+          simp only [RField.frameOk, RField.dataLen, RespSize.frameOk]
+          exact decide_eq_true (ho.bounded b hmem)
+        · exact hok
+      have hci : ((r.auth.isEmpty && r.enc.isEmpty) || r.cipher || decide (r.hdr.version = 3)) = true := by
+        rcases hcipher with hc | ⟨ha, he⟩
+        · simp [hc]
+        · simp [ha, he]
+      simp only [encodable, hfr, Bool.true_and]
+      exact hci
+    unfold serialize
+    split
+    · simp
+    · split
+      · simp
+      · split
+        · omega
+        · simp only [henc, Bool.not_true, Bool.false_eq_true, ↓reduceIte]
+          unfold padded
+          split
+          · omega
+          · rcases hdes with hd | hd
+            · simp [hd]
+            · simp only [hd]
+              split
+              · rename_i hcond
+                have h4 := ho.v5len (hv ▸ hcond.1)
+                have hudp := ho.udp
+                have hid := next4_id (req.len - (48 + efSize r)) (by omega)
+                split
+                · simp
+                · split
+                  · omega
+                  · split
+                    · omega
+                    · simp
+              · simp
+
 /-- An answer that was decided on is either sent, or its loss is recorded as exactly one
     "internal error / ignore" entry (or the serialiser panicked, excluded by C22 under its assumptions). -/
 theorem answer_or_internal (cfg : Config) (info : Info) (env : Env) (req : Req) {a reason v nts r}
@@ -212,8 +352,30 @@ example : handle cfgW infoW { envW with bufLen := reqOk.len } reqOk
 /-- the witness itself: decided answer, dropped as internal error -/
 example : handle cfgW infoW envW reqW = .ignore [⟨4, false, .internal, .ignore⟩] := by decide
 
+/-- an NTS NTPv4 request: 32-octet identifier, cookie and one placeholder (104 octets each), 16-octet nonce
+    (encrypted field 8 + 16 + 16 = 40 octets, nothing inside) -/
+def reqNts : Req :=
+  { len := 48 + 36 + 108 + 108 + 40, fv := 4, parse := .ok, version := 4, client := true, poll := 6,
+    xmit := [1, 2, 3, 4, 5, 6, 7, 8], reft := [0, 0, 0, 0, 0, 0, 0, 0], untrusted := [],
+    auth := [.uid (List.replicate 32 7), .cookie 104, .placeholder 104], enc := [], cookie := some 15,
+    encw := 40, mac := 0 }
+
+/-- it is `Outside` the known causes with respect to its (NTS) DENY answer, which is non-trivial: identifier
+    echoed under the s2c key -/
+example : ∃ r, ntsDenyResponse reqNts = .ok r ∧ Outside reqNts r ∧ efSize r = 36 + 40 := by
+  refine ⟨_, rfl, ⟨by decide, ⟨by decide, by decide⟩, fun _ => by decide, fun h => absurd h (by decide), ?_, by decide,
+    fun h => absurd h (by decide)⟩, by decide⟩
+  intro b hb
+  have : b = List.replicate 32 7 := by simpa [reqNts] using hb
+  subst this; decide
+
+/-- the short-nonce finding is excluded by `nonceLong`: with an 8-octet nonce the same request has a 32-octet
+    encrypted field -/
+example : ¬ (encOverhead + wireSum reqNts.enc ≤ ({ reqNts with encw := 32 } : Req).encw) := by decide
+
 end NtpVerif.C17
 
 #print axioms NtpVerif.C17.counterexample
 #print axioms NtpVerif.C17.plain_fits_partial
+#print axioms NtpVerif.C17.fits_unless_known_cause
 #print axioms NtpVerif.C17.answer_or_internal
